@@ -172,6 +172,10 @@ func c08MakeCase(idx int) c08Case {
 	c.Steps = rng.Range(5, 25)
 	c.Exec = rng.Chance(35)
 	c.RecoverEx = rng.Chance(12)
+	if c.Exec && rng.Chance(50) {
+		// long executing histories: several epochs, so that nodes leave and are invited back
+		c.Steps = rng.Range(25, 45)
+	}
 	return c
 }
 
@@ -193,7 +197,7 @@ func TestVF_C08_Histories(t *testing.T) {
 	// histories refuse packets all the time; the package's own knob is turned down so that a history stays in
 	// the millisecond range. No logic is changed.
 	backoff = 2 * time.Millisecond
-	nCases := vfPick(600, 8000)
+	nCases := vfPick(600, 6500)
 	par := 16
 	base, err := os.MkdirTemp("", "vf-c08-")
 	if err != nil {
@@ -695,19 +699,28 @@ func (h *c08H) proposeValid(short bool) *c08Proposal {
 	p.leader = h.pick(members)
 	sh := vfdShuffled(h.rng, c08Without(members, p.leader))
 	nLeave := 0
-	if len(members)-1 >= int(fin.Threshold) && h.rng.Chance(35) {
+	if len(members)-1 >= int(fin.Threshold) && h.rng.Chance(45) {
 		nLeave = 1
 	}
 	p.leaving = sh[:nLeave]
 	p.remaining = append([]*vfdNode{p.leader}, sh[nLeave:]...)
+	h.run.Count("reshare_proposals_attempted", 1)
 	var spare []*vfdNode
 	for _, nd := range h.pool {
 		if !c06In(members, nd) {
 			spare = append(spare, nd)
 		}
 	}
-	if len(spare) > 0 && h.rng.Chance(45) {
+	if len(spare) > 0 && h.rng.Chance(55) {
 		p.joining = []*vfdNode{h.pick(spare)}
+		// a node that left in an earlier epoch and is invited back is the interesting joiner
+		for _, nd := range spare {
+			if v := h.view(nd); v.cur != nil && v.cur.State == Left && h.rng.Chance(90) {
+				p.joining = []*vfdNode{nd}
+				h.run.Count("reshare_proposals_inviting_a_node_that_left", 1)
+				break
+			}
+		}
 	}
 	n := len(p.remaining) + len(p.joining)
 	thr := h.rng.Range(n/2+1, n)
@@ -799,6 +812,10 @@ func (h *c08H) execute(p *c08Proposal, drop bool) {
 		default:
 			nP++
 		}
+	}
+	if len(p.leaving) > 0 && nC > 0 {
+		h.run.Count("executions_completed_with_a_leaver", 1)
+		h.run.Seen("leaver_state_after_completed_execution", c08Desc(h.view(p.leaving[0])))
 	}
 	h.run.Count("execution_outcomes_complete", int64(nC))
 	h.run.Count("execution_outcomes_failed", int64(nF))
@@ -1187,7 +1204,7 @@ func (h *c08H) nSteps() int {
 }
 
 func (h *c08H) drive() {
-	for round := 0; h.nSteps() < h.c.Steps && round < 12; round++ {
+	for round := 0; h.nSteps() < h.c.Steps && round < 16; round++ {
 		for i := 0; i < h.rng.Range(0, 3); i++ {
 			h.noise(nil)
 		}
